@@ -350,3 +350,89 @@ pub fn self_check() -> Result<(), String> {
     }
     Ok(())
 }
+
+fn inv_odd64(a: u64) -> u64 {
+    let mut x = a;
+    for _ in 0..6 {
+        x = x.wrapping_mul(2u64.wrapping_sub(a.wrapping_mul(x)));
+    }
+    x
+}
+fn inv_odd32(a: u32) -> u32 {
+    inv_odd64(a as u64) as u32
+}
+
+/// States (as seed bytes) for which the reference *output* of the next step is `target`: the
+/// scrambler is inverted for a few choices of the free operand; the state words that do not enter
+/// the scrambler are taken from `fill` (all zero or dense). What a fast path or guard keyed on the
+/// output value (0, all ones, ...) would single out.
+pub fn states_with_output(kind: Kind, target: u64, free_operands: &[u64], fill: &[u64; 8]) -> Vec<Vec<u8>> {
+    let w = kind.word_bits();
+    let mask: u64 = if w == 64 { u64::MAX } else { 0xffff_ffff };
+    let t = target & mask;
+    let mut out = Vec::new();
+    let mut push = |words: &[(usize, u64)]| {
+        let mut s = *fill;
+        for &(i, v) in words {
+            s[i] = v & mask;
+        }
+        for i in kind.words()..8 {
+            s[i] = 0;
+        }
+        if s.iter().take(kind.words()).any(|&x| x != 0) {
+            let mut chk = s;
+            if step(kind, &mut chk) == t {
+                out.push(seed_from_state(kind, &s));
+            }
+        }
+    };
+    let rotr = |x: u64, r: u32| if w == 64 { x.rotate_right(r) } else { ((x as u32).rotate_right(r)) as u64 };
+    let sub = |a: u64, b: u64| a.wrapping_sub(b) & mask;
+    match kind {
+        Kind::Xoroshiro64Star => push(&[(0, (t as u32).wrapping_mul(inv_odd32(0x9E3779BB)) as u64)]),
+        Kind::Xoroshiro64StarStar => push(&[(0, ((t as u32).wrapping_mul(inv_odd32(5)).rotate_right(5).wrapping_mul(inv_odd32(0x9E3779BB))) as u64)]),
+        Kind::Xoroshiro128StarStar => push(&[(0, t.wrapping_mul(inv_odd64(9)).rotate_right(7).wrapping_mul(inv_odd64(5)))]),
+        Kind::Xoshiro128StarStar => push(&[(1, ((t as u32).wrapping_mul(inv_odd32(9)).rotate_right(7).wrapping_mul(inv_odd32(5))) as u64)]),
+        Kind::Xoshiro256StarStar | Kind::Xoshiro512StarStar => push(&[(1, t.wrapping_mul(inv_odd64(9)).rotate_right(7).wrapping_mul(inv_odd64(5)))]),
+        Kind::Xoroshiro128Plus => {
+            for &a in free_operands {
+                push(&[(0, a), (1, sub(t, a))]);
+            }
+        }
+        Kind::Xoshiro128Plus | Kind::Xoshiro256Plus => {
+            for &a in free_operands {
+                push(&[(0, a), (3, sub(t, a))]);
+            }
+        }
+        Kind::Xoshiro512Plus => {
+            for &a in free_operands {
+                push(&[(0, a), (2, sub(t, a))]);
+            }
+        }
+        Kind::Xoroshiro128PlusPlus => {
+            for &a in free_operands {
+                push(&[(0, a), (1, sub(rotr(sub(t, a), 17), a))]);
+            }
+        }
+        Kind::Xoshiro128PlusPlus => {
+            for &a in free_operands {
+                push(&[(0, a), (3, sub(rotr(sub(t, a), 7), a))]);
+            }
+        }
+        Kind::Xoshiro256PlusPlus => {
+            for &a in free_operands {
+                push(&[(0, a), (3, sub(rotr(sub(t, a), 23), a))]);
+            }
+        }
+        Kind::Xoshiro512PlusPlus => {
+            // result = rotl(s0 + s2, 17) + s2
+            for &a in free_operands {
+                push(&[(2, a), (0, sub(rotr(sub(t, a), 17), a))]);
+            }
+        }
+        Kind::SplitMix64 => {
+            push(&[(0, crate::seeding::splitmix_unmix(t).wrapping_sub(SPLITMIX_PHI))]);
+        }
+    }
+    out
+}
